@@ -45,6 +45,6 @@ Proof.
     - destruct (take_err s t) as [[a b] s1]. destruct ((a <? 0) && (b =? -1)).
       + destruct (lown s1 l) as [o|]; [destruct (Nat.eqb o t)|]; inversion H; subst;
           try held_done; unfold set_pc in Hi; rewrite th_updT_same in Hi; simpl in Hi; discriminate.
-      + destruct (translate a b). inversion H; subst. held_done. }
+      + destruct (translate a b) as [x y]. inversion H; subst. apply (lock_done_idle s1 t l c ret en x y). exact Hi. }
   split; auto. eapply li_ho; eauto. eapply LI_reachable; eauto.
 Qed.
